@@ -126,8 +126,6 @@ PROGRAMS = {
 QUICK_PROGRAMS = ["generic", "nemo", "lfric-multikernel-dm", "lfric-builtin-nodm",
                   "gocean-two-kernels"]
 
-_NEMO_TMP = {}
-
 
 def build(prog):
     '''-> root node of a fresh tree for the program.'''
@@ -158,8 +156,10 @@ def build(prog):
     if prog not in _PRISTINE:
         # the parsed algorithm layer + kernel metadata (read-only input);
         # the PSy layer is created afresh for every renewal
-        _PRISTINE[prog] = parse(os.path.join(core.REPO, TESTFILES, fname),
-                                api=api)[1]
+        base = os.path.join(core.REPO, TESTFILES)
+        if not os.path.isdir(base):        # scratch copy made without tests
+            base = os.path.join("/repo", TESTFILES)
+        _PRISTINE[prog] = parse(os.path.join(base, fname), api=api)[1]
     info = _PRISTINE[prog]
     psy = PSyFactory(api, distributed_memory=dm).create(info)
     _KEEP.append(psy)
@@ -361,8 +361,6 @@ def run_chunk(job):
                                           zip(cont[2].raw or ("", "", ""), again.raw)]})
                 t = cls(*cargs)
                 o = None if opt is None else dict(opt)
-                before = rec.counts["ok"] + rec.counts["crash"]
-                ncr = rec.counts["crash"]
                 stats["attempts"] += 1
                 try:
                     t.apply(*targs, o) if o is not None else t.apply(*targs)
